@@ -966,6 +966,126 @@ def run_tables(prop):
     return res
 
 
+# which translated functions of go/decoders (D3/D2) and go/tables (T3/T2) a parser / encoder property is about
+DEC_RELEVANT = {
+    "C07": r"^D3\.(GetVersion|New\w+|\w+_(GetError|decodeOne|Decode)(_nil)?)$|^T3\.(Get\w+|get|\w+_(IsUnknown|IsValid))$",
+    "C08": r"^D2\..*|^T2\.(Get\w+|\w+_(IsUnknown|IsValid|String))$",
+    "C09": r"^D[23]\.(\w+_(decodeOne|Decode)|New\w+|GetVersion)$|^T[23]\.(Get\w+|get)$",
+    "C10": r"^D[23]\.(\w+_(Encode|String|Decode|GetError|IsEmpty))$|^T[23]\.\w+_String$",
+    "C11": r"^D[23]\.(GetVersion|\w+_(GetError|decodeOne|Decode|Encode|IsEmpty))$|^T[23]\.(Get\w+|get|\w+_(IsUnknown|IsValid))$",
+    "C12": r"^D[23]\..*",
+}
+DEC_MODULE = "CvssVerif.Props.SrcDec"
+DEC_THEOREMS = ["v3_functions_are_source", "v2_functions_are_source", "constructors_are_source", "nil_receivers_are_source",
+                "no_index_panic", "v3_env_accepts_iff_source", "v2_accepts_iff_source", "names_abstraction_ok"]
+_DEC_CACHE = {}
+
+
+def run_decoders(prop):
+    """regenerate Generated/Tables.lean (go/tables) and Generated/Decoders.lean (go/decoders) from the text of /repo and re-check
+    `Props/SrcDec.lean` (translated constructors / Decode / decodeOne / GetError / Encode / String / IsEmpty / GetVersion = the
+    model's, for every object and every byte string, and no index panic).  Statuses as in run_formulas."""
+    import re
+    rel_re = re.compile(DEC_RELEVANT[prop])
+    rel = lambda k: bool(rel_re.match(k))
+    res = {"status": "not-understood", "note": "", "changed": [], "relevant": [], "failed": [], "not_understood": [],
+           "translator": "go/decoders + go/tables (go/parser; statement-by-statement translation onto the model's object, `none` = panic)"}
+    gen = {}
+    for kind in ("tables", "decoders"):
+        src = os.path.join(core.VERIF, "go", kind)
+        out = os.path.join(core.BUILD, kind)
+        dst = os.path.join(core.LEAN, "CvssVerif", "Generated", kind.capitalize() + ".lean")
+        refp = os.path.join(src, "reference.lean")
+        ref = open(refp).read()
+
+        def put(txt, dst=dst):
+            if not os.path.exists(dst) or open(dst).read() != txt:
+                open(dst, "w").write(txt)
+        try:
+            core.sh(["go", "build", "-o", out, "."], cwd=src, env=core.GOENV, timeout=300)
+            if os.path.exists(dst + ".new"):
+                os.remove(dst + ".new")
+            p = core.sh([out, core.REPO, dst + ".new", refp], timeout=120, check=False)
+            txt = p.stdout.strip()
+            res["note"] += txt[-700:] + " "
+            for line in txt.splitlines():
+                if line.startswith("not-understood:"):
+                    res["not_understood"] += line.split(":", 1)[1].split()
+            if p.returncode == 0 and txt.endswith("written=true") and os.path.exists(dst + ".new"):
+                new = open(dst + ".new").read()
+                os.remove(dst + ".new")
+                put(new)
+                gen[kind] = new
+                a, b = _split_tab_blocks(ref), _split_tab_blocks(new)
+                res["changed"] += sorted(k for k in set(a) | set(b) if a.get(k) != b.get(k) and not k.endswith((".consts", ".revTables", ".markSites")))
+                continue
+        except core.BuildError as e:
+            res["note"] += "go/%s failed: %s " % (kind, str(e)[-400:])
+        # the translator failed altogether: reference text, nothing claimed
+        put(ref)
+        res["not_understood"].append("%s.*" % ("T" if kind == "tables" else "D"))
+        gen[kind] = None
+    if gen.get("tables") is None or gen.get("decoders") is None:
+        res["status"] = "not-understood"
+        return res
+    key = gen["tables"] + gen["decoders"]
+    if key in _DEC_CACHE:
+        ok, log = _DEC_CACHE[key]
+    else:
+        ok, log = core.build_lean([TAB_MODULE, DEC_MODULE])
+        _DEC_CACHE[key] = (ok, log)
+    nu = res["not_understood"]
+    res["functions"] = len([k for k in _split_tab_blocks(gen["decoders"]) if not k.endswith(".markSites")])
+    if ok:
+        res["status"] = "not-understood" if any(rel(k) for k in nu) else "proved"
+        return res
+    failed, unmapped = set(), False
+    for fname, pre in (("Tables", "T"), ("Decoders", "D")):
+        pf = open(os.path.join(core.LEAN, "CvssVerif", "Proofs", fname + ".lean")).read().splitlines()
+        thm_at = []
+        for i, line in enumerate(pf, 1):
+            m = re.match(r"theorem (\w+)", line)
+            if m:
+                thm_at.append((i, m.group(1)))
+        for l in log.splitlines():
+            if not l.startswith("error:"):
+                continue
+            m = re.search(r"Proofs/%s\.lean:(\d+):" % fname, l)
+            if not m:
+                continue
+            ln = int(m.group(1))
+            names = [n for (i, n) in thm_at if i <= ln]
+            mm = re.match(r"(\w+)_(\d)$", names[-1]) if names else None
+            if mm:
+                failed.add("%s%s.%s" % (pre, mm.group(2), mm.group(1)))
+            elif names and (names[-1].startswith("revTables_nodup") or names[-1] == "markSites_ok"):
+                failed.add(pre + "?.obligation:" + names[-1])
+            else:
+                unmapped = True
+    for l in log.splitlines():
+        if l.startswith("error:") and ("Generated/" in l or "Props/Src" in l):
+            unmapped = True
+    if unmapped or not failed:
+        failed = set(k for k in _split_tab_blocks(gen["decoders"])) | set(k for k in _split_tab_blocks(gen["tables"]) if ".tbl_" not in k)
+    # theorems that bundle several functions (String_3, IsEmpty_2, constructors_3, nil_receivers_3): every function of the bundle
+    bundle = {"String": ["Base_String", "Temporal_String", "Environmental_String"], "IsEmpty": ["Temporal_IsEmpty", "Environmental_IsEmpty"],
+              "constructors": ["NewBase", "NewTemporal", "NewEnvironmental"], "nil_receivers": ["Base_GetError_nil", "Base_Encode_nil"]}
+    exp = set()
+    for k in failed:
+        pre, _, nm = k.partition(".")
+        if nm in bundle:
+            exp.update("%s.%s" % (pre, x) for x in bundle[nm])
+        else:
+            exp.add(k)
+    # a function that is not understood carries the reference text: an equality about it cannot fail because of the source
+    res["failed"] = sorted(exp)
+    res["relevant"] = [k for k in sorted(exp) if (rel(k) or "obligation" in k) and k not in nu]
+    res["status"] = "lost" if res["relevant"] else ("not-understood" if any(rel(k) for k in nu) else "lost-elsewhere")
+    errs = [l for l in log.splitlines() if l.startswith("error:")]
+    res["note"] = (" | ".join(e[:160] for e in errs))[:1500]
+    return res
+
+
 def run_effects():
     """regenerate lean/CvssVerif/Generated/Effects.lean from /repo (write-set facts: translator tie of C15/C16);
     returns the rows that are not what the model assumes (for the report), [] when all is as expected"""
